@@ -345,6 +345,33 @@ def r7(p, rep, rid="C14.R7"):
     rep.ok(rid, "sweep", "einx/_src", f"{n} closures created in loops inspected")
 
 
+def r8(p, rep, rid="C14.R8"):
+    rep.rule(rid, "a list that is zipped positionally with the sequence it was built from gets exactly one element per element of that sequence (one coordinate per axis of the target in the ravel)", "T-MPT over the loop body (append count per iteration path) with a positive self-check", floor=1)
+    import os
+
+    n = 0
+    for f in p.funcs.values():
+        if not isinstance(f.node, (ast.FunctionDef, ast.AsyncFunctionDef)) or any(f.module.name == m for m in common.OFF_PATH_MODULES):
+            continue
+        k, hits = common.zip_alignment(f.node)
+        n += k
+        for z, lname, sname, loop, counts in hits:
+            rep.violation(rid, f"{f.qualname}:zip({lname},{sname})", f"{f.module.rel}:{loop.lineno}", f"`{lname}` is filled in the loop over `{sname}` and later paired with it by `{norm(z)[:60]}`, but one trip through the loop appends {sorted(counts)} element(s): after a skipped element every later pair is shifted (each coordinate is multiplied with the stride of the wrong axis) and the non-strict zip drops the tail silently")
+        if k and not hits:
+            rep.ok(rid, f"{f.qualname}:lockstep", f.loc, f"{k} list(s) built in lockstep with the sequence they are zipped with: exactly one append on every path through the loop body")
+    pos = os.path.join(os.path.dirname(os.path.dirname(os.path.abspath(__file__))), "selftest", "positive", "zip_alignment.py")
+    tree = ast.parse(open(pos).read())
+    from sa.core import set_parents
+
+    set_parents(tree)
+    fns = {x.name: x for x in tree.body if isinstance(x, ast.FunctionDef)}
+    b_, g_ = common.zip_alignment(fns["bad"]), common.zip_alignment(fns["good"])
+    if not (b_[0] == 1 and len(b_[1]) == 1 and g_[0] == 1 and not g_[1]):
+        raise AnalysisError("self-check of the zip-alignment lint failed on selftest/positive/zip_alignment.py")
+    rep.ok(rid, "self-check:positive-example", "selftest/positive/zip_alignment.py", "the lint reports the seeded positive example and is silent on its corrected twin")
+    rep.info["lockstep_lists"] = n
+
+
 def run(p, rep, tier):
     r1(p, rep)
     r2(p, rep)
@@ -354,5 +381,6 @@ def run(p, rep, tier):
     r5(p, rep)
     r6(p, rep)
     r7(p, rep)
+    r8(p, rep)
     rep.assume("np.put flattens and cycles its values; ufunc.at, jnp .at[].set/add, torch.index_put_, tf.tensor_scatter_nd_* and x[idx] = v broadcast or require equal shapes")
     rep.info["undecided"] = "ravel arithmetic, accumulation of duplicates, untouched elements and get_at read-back are value-level and not decided"
